@@ -47,7 +47,9 @@
 (*   C1 after a cancellation took effect no further key step is played       *)
 (*   C2 ... and every key the activation holds is up one tick later          *)
 (*   C3 a key press while the only cancel-on-press macro started since the   *)
-(*      last idle point is in progress (first round) cancels                 *)
+(*      last idle point is in progress (first round) cancels; a press when   *)
+(*      no cancel-on-press macro runs and none can still be in its (first)   *)
+(*      pass leaves the running macros alone (they stay under S1..S3)        *)
 (*   R1 kanata is not idle while a repeating macro's key is held             *)
 (*   R2 a new round starts only if the key was still held when the round     *)
 (*      before ended                                                        *)
@@ -193,7 +195,9 @@ MonInit(p) ==
    want |-> [i \in DOMAIN p.macros |-> FALSE],    \* virtual key of macro i wanted pressed
    ql |-> 0,          \* inputs arrived and not yet processed (one per tick)
    gapIn |-> 0, lastIdle |-> TRUE,
-   trig |-> FALSE,    \* the trigger of a cancel-on-press macro may be armed (a press may cancel the macros)
+   trig |-> 0,        \* ticks during which the trigger of a cancel-on-press macro that is no longer tracked may
+                      \* still be armed ("enabled while the macro is in progress": one pass of the macro from the tick
+                      \* its key is processed); afterwards a press must leave the other macros alone
    lastc |-> "none",  \* kind of the last cancellation
    vbal |-> 0,        \* virtual-key taps seen minus taps owed by completed macros
    err |-> ""]
@@ -240,10 +244,10 @@ Register(m1, m, mi, late) ==
       keep == SelectSeq(m1.acts, LAMBDA a : SharpCancelled(a) \/ ~Overlap(m, a.mi, mi))
   IN IF confl # {} \/ dconfl
      THEN \* the projections on the macro's keys interleave: outside the sharp zone
-          [m1 EXCEPT !.nreg = OMin(@ + 1, p.cap + 1), !.trig = @ \/ p.macros[mi].pc, !.acts = keep,
+          [m1 EXCEPT !.nreg = OMin(@ + 1, p.cap + 1), !.acts = keep,
                      !.npc = IF p.macros[mi].pc THEN OMin(@ + 1, 2) ELSE @,
                      !.dused = @ \cup {mi} \cup {m1.acts[i].mi : i \in confl}]
-     ELSE [m1 EXCEPT !.nreg = OMin(@ + 1, p.cap + 1), !.trig = @ \/ (p.macros[mi].pc /\ ~SharpQ(m)),
+     ELSE [m1 EXCEPT !.nreg = OMin(@ + 1, p.cap + 1), !.trig = IF p.macros[mi].pc /\ ~SharpQ(m) THEN OMax(@, m.ql + 3 + m.x[mi].dur) ELSE @,
                      !.npc = IF p.macros[mi].pc THEN OMin(@ + 1, 2) ELSE @,
                      !.acts = Append(m1.acts, [NewAct(m, mi) EXCEPT !.proc = @ + late])]
 
@@ -263,6 +267,13 @@ KeyUp(m0, m, mi, late) ==
      THEN IF sharp THEN CancelAll(m1, m.ql + 1, m.ql + 2, "rc", FALSE)
                    ELSE CancelAll(m1, 0 - 1, 0 - 1, "rc", FALSE)
      ELSE m1
+
+\* a press may cancel the macros: a cancel-on-press macro is running (tracked, or outside the sharp zone),
+\* or one pass of such a macro is not over yet
+MayCancel(m) ==
+  \/ m.trig > 0
+  \/ \E i \in DOMAIN m.acts : m.p.macros[m.acts[i].mi].pc /\ m.acts[i].proc = 0
+  \/ \E j \in m.dused : m.p.macros[j].pc
 
 MonIn(m, r) ==
   IF m.err # "" THEN m
@@ -285,7 +296,7 @@ MonIn(m, r) ==
                           /\ a.st = "live" /\ ~a.opt /\ p.macros[a.mi].pc /\ a.proc = 0 /\ a.rnd = 1
                           /\ a.pos < m.x[a.mi].N /\ p.macros[a.mi].c # r.c
                 m1 == IF must THEN CancelAll(m0, 0, 1, "pc", TRUE)
-                      ELSE IF m.trig THEN CancelAll(m0, 0 - 1, 0 - 1, "pc?", TRUE) ELSE m0
+                      ELSE IF MayCancel(m) THEN CancelAll(m0, 0 - 1, 0 - 1, "pc?", TRUE) ELSE m0
                 vk == VkOp(p, r.c)
             IN IF mi # 0 THEN Register(m1, m, mi, 0)
                ELSE IF vk[1] # 0
@@ -444,15 +455,17 @@ MonTick(m, out, idle, cb) ==
                   !.nreg = IF idle THEN 0 ELSE @,
                   !.npc = IF idle THEN 0 ELSE @,
                   !.dused = IF idle THEN {} ELSE @,
-                  !.trig = IF idle THEN FALSE
-                           ELSE @ \/ \E i \in DOMAIN acts2 : p.macros[acts2[i].mi].pc /\ acts2[i].proc = 0,
+                  !.trig = IF idle THEN 0
+                           ELSE LET P == {i \in DOMAIN m1.acts : p.macros[m1.acts[i].mi].pc /\ m1.acts[i].proc = 1}
+                                    D == {m.x[m1.acts[i].mi].dur : i \in P}     \* processed on this tick
+                                IN OMax(Dec(m.trig), IF D = {} THEN 0 ELSE CHOOSE d \in D : \A e \in D : d >= e),
                   !.lastc = IF settled THEN "none" ELSE @,
                   !.vbal = IF settled THEN 0 ELSE @]
 
 RECURSIVE MonSilent(_, _, _, _)
 MonSilent(m, n, idle, cb) ==
   IF n = 0 \/ m.err # "" THEN m
-  ELSE IF m.acts = <<>> /\ m.ql = 0 /\ m.gapIn = 0 /\ m.lastIdle = idle /\ idle /\ ~m.trig
+  ELSE IF m.acts = <<>> /\ m.ql = 0 /\ m.gapIn = 0 /\ m.lastIdle = idle /\ idle /\ m.trig = 0
           /\ m.lastc = "none" /\ m.vbal = 0 /\ m.down = {} /\ m.bdown = {} /\ m.dused = {} /\ m.nreg = 0 /\ m.npc = 0
   THEN m
   ELSE MonSilent(MonTick(m, <<>>, idle, cb), n - 1, idle, cb)
